@@ -124,6 +124,18 @@ Proof.
   - destruct (fr_tr _ _ _ _ _ _ F) as (l & El & Ql). exists l. split; [exact El|exact Ql].
 Qed.
 
+
+(* every state reached by an in-contract API history is Ready (when active) - so the statements above, made for Ready
+   states, hold at every point of every history *)
+Theorem reachable_ready lg ops :
+  ops_ok P cfg orc (construct P cfg orc lg) ops ->
+  let s := run P cfg orc lg ops in
+  Inv s /\ (active P (co P s) < c_n cfg -> Ready s (active P (co P s))).
+Proof.
+  intro Hok. pose proof (run_life P cfg orc (PIc P cfg) HPI Hwf Hcfg lg ops Hok) as H. cbv zeta in H |- *.
+  destruct H as [I _]. split; [exact I|]. intro Ha. apply Inv_Ready; assumption.
+Qed.
+
 (* ---- C11: the transition history drives a replica ---- *)
 (* after a processing step, the authority's active state is the destination of previousTransition() when that is
    set, and unchanged otherwise; replaying that destination on a replica in the same state gives the same state,
